@@ -656,6 +656,7 @@ def run_sequence(idx, entries, weights, static, col, baseline):
     R1 = []
     for i, (e, _, rep) in enumerate(calls):
         args = clone(pristine[i])
+        before = canon(args)      # taken immediately before the call: an earlier call may have changed a shipped argument
         mark = len(log) if log is not None else 0
         res = invoke(e, args)
         col.evaluations += 1
@@ -665,11 +666,11 @@ def run_sequence(idx, entries, weights, static, col, baseline):
         else:
             col.stats.add('exceptions')
         after = canon(args)
-        if after != pictures[i]:
-            where = diff_paths(pictures[i], after)
+        if after != before:
+            where = diff_paths(before, after)
             st = seq_text(calls, i)
             col.violation(f'arg-mutated:{e.name}', 'a call changed an object supplied by the caller', st,
-                          f'argument{where} after the call: {show(after)}', f'unchanged: {show(pictures[i])}',
+                          f'argument{where} after the call: {show(after)}', f'unchanged: {show(before)}',
                           call_text(e, pristine[i]))
             if static is not None and not e.pred_rows:
                 col.disagreement('unpredicted-arg-mutation', e.name,
